@@ -12,7 +12,8 @@ package sonic
 // never armed.
 //@ pred tInv(t *Timer) =
 //@   t.ioc != nil && t.it != nil && internal.tiInv(t.it) &&
-//@   (t.state == stateScheduled) == tArmed(t) && t.state <= stateClosed
+//@   (t.state == stateScheduled) == tArmed(t) && t.state <= stateClosed &&
+//@   !internal.armed(&t.it.slot, internal.PollerWriteEvent)
 
 // Rely on user callbacks: they leave the timer consistent (every public operation does).
 //@ func fnparam:(*Timer).*.cb
@@ -66,3 +67,9 @@ package sonic
 //@   requires t != nil && cb != nil && ccb != nil && repeat > 0
 //@   assert call ScheduleOnce: !t.cancelled && arg1 == repeat
 //@   consumes cb
+
+//@ func (*Timer).ScheduleRepeating
+//@   prop C04
+//@   requires tInv(t) && cb != nil
+//@   ensures [rejected] repeat <= 0 ==> result != nil && t.state == old(t.state) && tArmed(t) == old(tArmed(t)) && invoked(cb) == 0
+//@   assert call ScheduleOnce: arg1 == repeat && repeat > 0
